@@ -1583,6 +1583,7 @@ func (e *Exec) execLookup(s *State, f *Frame, in *ssa.Lookup) stepResult {
 	vt := under(in.X.Type()).(*types.Map).Elem()
 	var res Value = zeroValue(vt)
 	found := False
+	mergeOK := true
 	if m != nil {
 		// ite-chain from the last entry to the first; keys are pairwise distinct
 		for i := len(m.Entries) - 1; i >= 0; i-- {
@@ -1598,19 +1599,51 @@ func (e *Exec) execLookup(s *State, f *Frame, in *ssa.Lookup) stepResult {
 			}
 			mv, ok := mergeValue(c, en.V, res)
 			if !ok {
-				panic(unsupported("symbolic map lookup over unmergeable values"))
+				mergeOK = false
+				break
 			}
 			res = mv
 			found = Or(c, found)
 		}
 	}
-	if in.CommaOk {
-		e.set(f, in, TupleV{res, found})
-	} else {
-		e.set(f, in, res)
+	setRes := func(st *State, v Value, ok *Term) {
+		ff := st.g().top()
+		if in.CommaOk {
+			e.set(ff, in, TupleV{v, ok})
+		} else {
+			e.set(ff, in, v)
+		}
+		ff.ip++
 	}
-	f.ip++
-	return stepResult{kind: kCont}
+	if mergeOK {
+		setRes(s, res, found)
+		return stepResult{kind: kCont}
+	}
+	// values cannot be merged: fork over which entry the key equals
+	var forks []*State
+	var conds []*Term
+	for _, en := range m.Entries {
+		c := valueEq(k, en.K)
+		conds = append(conds, c)
+		if c.IsFalse() || !e.feasible(s, c) {
+			continue
+		}
+		ns := s.clone()
+		e.h.States++
+		ns.assume(c)
+		setRes(ns, en.V, True)
+		forks = append(forks, ns)
+	}
+	none := Not(Or(conds...))
+	if e.feasible(s, none) {
+		s.assume(none)
+		setRes(s, zeroValue(vt), False)
+		forks = append(forks, s)
+	}
+	if len(forks) == 0 {
+		panic(pathEnd{"infeasible", "map lookup"})
+	}
+	return stepResult{kind: kForks, states: forks}
 }
 
 func (e *Exec) execMapUpdate(s *State, f *Frame, in *ssa.MapUpdate) stepResult {
